@@ -1,6 +1,6 @@
 """C09 - changes to project files on disk are always seen.
 
-Every scenario is a scratch project under /tmp/scratch-c08c09/c09/<sid>/ with its own parso cache
+Every scenario is a scratch project under /tmp/scratch-c08c09/c09-<id of this checkout>/<sid>/ with its own parso cache
 directory, a sequence of file-system mutations (write, overwrite, delete, rename, module<->package,
 add/remove __init__.py, add/remove a stub) and, after every mutation, queries through `import`,
 `from-import`, star import and relative imports, each through a NEW Script.  mtimes are set
@@ -18,9 +18,20 @@ Streams
                than everything before) must never differ; the adversarial policies (same mtime,
                strictly newer but older than the pickle file, rename keeping the mtime) are the
                counter-witnesses of Props/C09 and are reported as known findings when they reproduce
+  stubs        which stub file (`pkg/spk.pyi` next to the module / sub-package, `pkg/spk/__init__.pyi`,
+               none) every Script that imports the sub-module `pkg.spk` loads, from which layer and which
+               version, vs `tryLoadStub` of Model/DiskCache (steps 2-4 of typeshed._try_to_load_stub with
+               the directory-listing layer `_create_stub_map`; `Gen.C09.cfg.stubListingCached` is read
+               from the decorators of that function)
   finder       the helper's importlib FileFinder keeps its directory listing while the directory's
                mtime does not change (known finding)
+
+Stub layouts (generator `spk_mutation`, deterministic `layout_scenarios`): the sub-module `pkg.spk` is a
+module `pkg/spk.py`, a package `pkg/spk/__init__.py`, a namespace directory or absent; its stub is the
+sibling file `pkg/spk.pyi`, `pkg/spk/__init__.pyi` or absent; stubs are added / overwritten / removed
+and the module is turned into a package (and back) AFTER the package `pkg` was queried in the process.
 """
+import hashlib
 import json
 import os
 import shutil
@@ -41,8 +52,13 @@ MANIFEST = dict(
          'deleted file is never served, the first resolution in a new Script bypasses everything earlier Scripts '
          'resolved. Kernel-checked counter-witnesses without the hypothesis: same-mtime overwrite, strictly newer '
          'mtime that is older than the pickle file (new process), rename keeping an older mtime, shared module '
-         'cache. Tie: translator (cache=/diff_cache= keywords, ModuleCache per InferenceState, parso\'s two '
-         'comparisons as installed) + probed layer/version correspondence on generated mutation sequences + '
+         'cache. Stub lookup of a sub-module (typeshed._try_to_load_stub steps 2-4 over the os.listdir map of the '
+         'parent package, _create_stub_map): the listing consulted is the present file system (stub_listing_fresh, '
+         'from "no memo decorator" read by the translator) and the stub served equals what a fresh process serves '
+         '(stub_as_fresh_process_partial); witness stale_if_stub_listing_cached. '
+         'Tie: translator (cache=/diff_cache= keywords, ModuleCache per InferenceState, decorators of '
+         '_create_stub_map/_merge_create_stub_map, parso\'s two '
+         'comparisons as installed) + probed layer/version and stub-choice correspondence on generated mutation sequences + '
          'direct oracle against a brand-new interpreter with an empty cache directory.',
     note='Modelled not verified: parso parse/diff parser, pickle round trip, importlib finders in the helper '
          '(parameter `find` = function of the current file system; the FileFinder directory cache is exercised by '
@@ -51,7 +67,9 @@ MANIFEST = dict(
               'correspondence + fresh-process oracle',
     design='5.C09')
 
-SCRATCH = '/tmp/scratch-c08c09/c09'
+# one scratch area per checkout of the framework: concurrent checks from different worktrees do not
+# remove each other's projects
+SCRATCH = '/tmp/scratch-c08c09/c09-' + hashlib.sha1(common.VERIF.encode()).hexdigest()[:8]
 BASE = 1600000000      # logical clock origin (2020): far below the wall clock
 
 
@@ -64,7 +82,9 @@ def content(rel, version):
     lines += ['shared = %d' % version, 'v%d_%s = 1' % (version, tag), 'def f%d(x):' % version, '    return x']
     if rel.endswith('.pyi'):
         lines = ['shared: int', 'v%d_%s: int' % (version, tag), 'def f%d(x: int) -> int: ...' % version]
-    if rel.endswith('__init__.py'):
+    if rel == 'pkg/spk/__init__.py':
+        lines.append('init_only = 1')
+    elif rel.endswith('__init__.py'):
         lines.append('from . import sub' if version % 2 else 'init_only = 1')
     return '\n'.join(lines) + '\n'
 
@@ -77,7 +97,30 @@ QUERIES = [
     ('relative', 'pkg/inner.py', 'from . import sib\nsib.', [('complete', 2, 4)]),
     ('relative-from', 'pkg/inner.py', 'from .sib import shared\nshared', [('goto', 2, 3)]),
     ('dotted', 'main.py', 'import pkg.sub\npkg.sub.', [('complete', 2, 8)]),
+    # the sub-module pkg.spk (module / package / namespace / stub-only) and its stub
+    ('sub-dotted', 'main.py', 'import pkg.spk\npkg.spk.', [('complete', 2, 8)]),
+    ('sub-from', 'main.py', 'from pkg.spk import shared\nshared',
+     [('goto', 2, 3, {'follow_imports': True, 'prefer_stubs': True}), ('goto', 2, 3, {'only_stubs': True})]),
+    ('sub-star', 'main.py', 'from pkg.spk import *\nv', [('complete', 2, 1)]),
+    ('sub-relative', 'pkg/inner.py', 'from . import spk\nspk.', [('complete', 2, 4)]),
 ]
+STUB_QUERIES = ('sub-dotted', 'sub-from', 'sub-star', 'sub-relative')
+STUB_CANDIDATES = ('pkg/spk.pyi', 'pkg/spk/__init__.pyi')
+
+
+def stub_query(files, dirs):
+    """the arguments of typeshed._try_to_load_stub for ('pkg', 'spk') on the present files, as the model's
+    StubQuery (os.path arithmetic done here)"""
+    if 'pkg/spk/__init__.py' in files:              # importlib: package > module > namespace portion
+        direct, absent = ['pkg/spk/__init__.pyi'], False
+    elif 'pkg/spk.py' in files:
+        direct, absent = ['pkg/spk.pyi'], False
+    elif 'pkg/spk' in dirs:
+        direct, absent = ['pkg/spk/__init__.pyi'], False
+    else:
+        direct, absent = [], True
+    return {'t': 'stub', 'dir': 'pkg', 'direct': direct, 'useListing': 'pkg/__init__.py' in files,
+            'pkgStub': 'pkg/spk/__init__.pyi', 'modStub': 'pkg/spk.pyi', 'pyAbsent': absent}
 
 
 # ======================================================================= inside observer processes
@@ -120,9 +163,10 @@ def _observe(proj, cache_dir, probe=True):
             state['trace'] = []
         out = []
         script = jedi.Script(src, path=os.path.join(proj, rel))
-        for meth, line, col in qs:
+        for q in qs:
+            meth, line, col = q[:3]
             try:
-                res = getattr(script, meth)(line, col)
+                res = getattr(script, meth)(line, col, **(q[3] if len(q) > 3 else {}))
                 if meth == 'complete':
                     out.append(sorted(c.name for c in res if not c.name.startswith('__')))
                 else:
@@ -242,7 +286,7 @@ def apply_op(proj, op, clock, mtimes):
         for k in [k for k in mtimes if k.startswith(rel + '/')]:
             mtimes.pop(k)
             model.append({'t': 'delete', 'p': k})
-        _stamp(proj, clock.now)
+        _stamp(os.path.dirname(full(rel)), clock.now)
         model.insert(0, {'t': 'tick', 'dt': 10})
     return model
 
@@ -262,6 +306,7 @@ def run_scenario(item):
     mtimes = {}
     pickles = {}
     out = []
+    t_start = time.time()
     env = dict(os.environ)
     env['PYTHONPATH'] = os.pathsep.join([common.REPO, os.path.join(common.VERIF, 'harness'), common.VERIF])
 
@@ -305,10 +350,11 @@ def run_scenario(item):
         for rel in sorted(mtimes):
             with open(os.path.join(proj, rel)) as f:
                 files[rel] = f.read()
+        dirs = sorted(os.path.relpath(os.path.join(r, d), proj) for r, ds, _ in os.walk(proj) for d in ds)
         out.append({'answers': obs['answers'], 'truth': truth['answers'], 'trace': obs['trace'],
-                    'model_ops': model_ops, 'files': files, 'mtimes': dict(mtimes)})
+                    'model_ops': model_ops, 'files': files, 'mtimes': dict(mtimes), 'dirs': dirs})
     shutil.rmtree(root, ignore_errors=True)
-    return {'sid': item['sid'], 'steps': out}
+    return {'sid': item['sid'], 'steps': out, 'secs': round(time.time() - t_start, 1)}
 
 
 # ======================================================================= generation (parent)
@@ -331,11 +377,19 @@ def gen_scenario(rng, sid, observer, policy):
 
     steps = [[w(r) for r in MODFILES]]
     present = {r: steps[0][i]['version'] for i, r in enumerate(MODFILES)}
+    # the sub-module pkg.spk: package (mostly), module, or absent at the start
+    r0 = rng.random()
+    for rel in (['pkg/spk/__init__.py'] if r0 < 0.6 else ['pkg/spk.py'] if r0 < 0.85 else []):
+        o = w(rel)
+        steps[0].append(o)
+        present[rel] = o['version']
     nsteps = rng.randint(2, 3)
     for _ in range(nsteps):
         r = rng.random()
         ops = []
-        if r < 0.45:
+        if r < 0.3:
+            ops = spk_mutation(rng, present, w, policy)
+        elif r < 0.55:
             rel = rng.choice([x for x in present if not x.endswith('.pyi')] or ['mod.py'])
             pol = policy if rng.random() < 0.8 else 'fresh'
             o = w(rel, pol)
@@ -344,10 +398,10 @@ def gen_scenario(rng, sid, observer, policy):
                 o['bytes_id'] = bid(rel, present[rel])
             present[rel] = o['version']
             ops.append(o)
-        elif r < 0.55 and 'mod.py' in present:
+        elif r < 0.62 and 'mod.py' in present:
             ops.append({'op': 'delete', 'rel': 'mod.py'})
             present.pop('mod.py')
-        elif r < 0.7:
+        elif r < 0.74:
             # an older sibling moved over the module (mv keeps the mtime)
             tmp = 'spare.py'
             if 'mod.py' in present:
@@ -372,7 +426,7 @@ def gen_scenario(rng, sid, observer, policy):
                 o = w('mod.py')
                 present['mod.py'] = o['version']
                 ops.append(o)
-        elif r < 0.8:
+        elif r < 0.84:
             # module <-> package
             if 'mod.py' in present:
                 ops.append({'op': 'delete', 'rel': 'mod.py'})
@@ -390,7 +444,7 @@ def gen_scenario(rng, sid, observer, policy):
                 o = w('mod.py')
                 present['mod.py'] = o['version']
                 ops.append(o)
-        elif r < 0.9:
+        elif r < 0.92:
             # remove / add pkg/__init__.py (regular package <-> namespace package)
             if 'pkg/__init__.py' in present:
                 ops.append({'op': 'delete', 'rel': 'pkg/__init__.py'})
@@ -413,14 +467,66 @@ def gen_scenario(rng, sid, observer, policy):
     return {'sid': sid, 'observer': observer, 'policy': policy, 'steps': steps}
 
 
+SPK_PKG, SPK_MOD, SPK_SIB, SPK_INIT = 'pkg/spk/__init__.py', 'pkg/spk.py', 'pkg/spk.pyi', 'pkg/spk/__init__.pyi'
+
+
+def spk_mutation(rng, present, w, policy):
+    """one mutation of the sub-module pkg.spk or of its stub.  Never both stub forms at once (the key
+    `spk` of _create_stub_map would then depend on the os.listdir order) and never module and package
+    at once."""
+    def put(rel, pol='fresh'):
+        o = w(rel, pol)
+        present[rel] = o['version']
+        return o
+
+    def drop(rel):
+        present.pop(rel)
+        return {'op': 'delete', 'rel': rel}
+
+    stub = SPK_SIB if SPK_SIB in present else SPK_INIT if SPK_INIT in present else None
+    py = SPK_PKG if SPK_PKG in present else SPK_MOD if SPK_MOD in present else None
+    moves = []
+    if stub is None:
+        moves += ['add-sibling', 'add-sibling', 'add-init']
+    else:
+        moves += ['remove-stub', 'overwrite-stub', 'move-stub']
+    if py is None:
+        moves += ['add-package', 'add-module']
+    else:
+        moves += ['flip-py', 'remove-py']
+    m = rng.choice(moves)
+    pol = policy if rng.random() < 0.5 else 'fresh'
+    if m == 'add-sibling':
+        return [put(SPK_SIB)]
+    if m == 'add-init':
+        return [put(SPK_INIT)]
+    if m == 'remove-stub':
+        return [drop(stub)]
+    if m == 'overwrite-stub':
+        return [put(stub, pol)]
+    if m == 'move-stub':                      # the other stub form takes over
+        return [drop(stub), put(SPK_INIT if stub == SPK_SIB else SPK_SIB)]
+    if m == 'add-package':
+        return [put(SPK_PKG)]
+    if m == 'add-module':
+        return [put(SPK_MOD)]
+    if m == 'flip-py':                        # module <-> package, the stub stays where it is
+        return [drop(py), put(SPK_MOD if py == SPK_PKG else SPK_PKG)]
+    return [drop(py)]                         # remove-py: stub-only module / package / namespace dir
+
+
 # ======================================================================= comparison
 
 def model_request(sc, res):
-    """file-system ops + the probed loads, in order; also the bytes id on disk per step and path"""
+    """file-system ops + the probed loads, in order; every Script that imports pkg.spk contributes one
+    `stub` op (in the place of the first stub file it loaded, or after its loads when it loaded none).
+    Returns the request, the compared events [(step, kind, record, index of the op)] and the bytes id on
+    disk per step and path"""
     steps = []
-    loads = []
+    events = []
     fs = {}
     cur_ids = []
+    proj = os.path.join(SCRATCH, sc['sid'], 'proj')
     for si, st in enumerate(res['steps']):
         for s in st['model_ops']:
             steps.append(s)
@@ -431,10 +537,24 @@ def model_request(sc, res):
             elif s['t'] == 'rename' and s['s'] in fs:
                 fs[s['d']] = fs.pop(s['s'])
         cur_ids.append(dict(fs))
-        for l in _loads(st['trace']):
-            steps.append({'t': 'load', 'p': os.path.relpath(l['path'], os.path.join(SCRATCH, sc['sid'], 'proj'))})
-            loads.append((si, l))
-    return {'op': 'history', 'steps': steps}, loads, cur_ids
+        loads = _loads(st['trace'])
+        sq = stub_query(st['files'], st.get('dirs', []))
+        for label, _, _, _ in QUERIES:
+            mine = [l for l in loads if l['label'] == label]
+            stubbed = label not in STUB_QUERIES
+            for l in mine:
+                rel = os.path.relpath(l['path'], proj)
+                if not stubbed and rel in STUB_CANDIDATES:
+                    stubbed = True
+                    events.append((si, 'stub', dict(l, rel=rel), len(steps)))
+                    steps.append(dict(sq))
+                else:
+                    events.append((si, 'load', dict(l, rel=rel), len(steps)))
+                    steps.append({'t': 'load', 'p': rel})
+            if not stubbed:
+                events.append((si, 'stub', {'label': label, 'rel': None, 'layer': None, 'code': None}, len(steps)))
+                steps.append(dict(sq))
+    return {'op': 'history', 'steps': steps}, events, cur_ids
 
 
 def _loads(trace):
@@ -484,9 +604,12 @@ def _run(ctx):
         scs.append(gen_scenario(rng, 's%d-%d' % (ctx.seed, i), observer, policy))
     # deterministic witnesses of Props/C09 (the known findings print every run)
     scs += witness_scenarios(ctx.seed)
+    # stub layouts of the sub-module pkg.spk, stubs added / moved / removed after pkg was queried
+    scs += layout_scenarios(ctx.seed)
     t0 = time.time()
     results = [r[0] for r in pmap('run_scenario', [[s] for s in scs], jobs=14, module='props.c09')]
-    common.log('[c09] scenarios: %.1fs' % (time.time() - t0))
+    common.log('[c09] scenarios: %.1fs (%s)' % (time.time() - t0, ' '.join(
+        '%s:%d steps:%ss' % (r['sid'], len(r['steps']), r.get('secs')) for r in results)))
     reqs, loadlists, curids = [], [], []
     for sc, res in zip(scs, results):
         rq, loads, cur = model_request(sc, res)
@@ -501,14 +624,37 @@ def _run(ctx):
         if ans is not None:
             if isinstance(ans, dict):
                 raise common.InfraError('driver error: %r' % ans)
-            mloads = [a for a, s in zip(ans, rq['steps']) if s['t'] == 'load']
-            # bytes ids: content -> id as the generator assigned them (model_ops carry them)
-            for (si, l), m in zip(loads, mloads):
+            for si, kind, l, idx in loads:
+                m = ans[idx]
                 st = res['steps'][si]
-                rel = os.path.relpath(l['path'], proj)
+                rel = l['rel']
+                if kind == 'stub':
+                    # which stub file this Script serves for pkg.spk, from which layer, which version
+                    cur = st['files'].get(rel) if rel else None
+                    served_current = rel is None or l['code'] == cur or l['code'] == 'SAME-LINES'
+                    layout = '%s+%s' % (
+                        'pkg' if SPK_PKG in st['files'] else 'mod' if SPK_MOD in st['files'] else
+                        'ns' if 'pkg/spk' in st.get('dirs', []) else 'absent',
+                        'sibling' if SPK_SIB in st['files'] else 'init' if SPK_INIT in st['files'] else 'nostub')
+                    ctx.count('stubs', (sc['sid'], si, l['label']), nontrivial=rel is not None,
+                              bucket='%s/%s/%s' % (sc['observer'], layout, l['layer']),
+                              sample={'observer': sc['observer'], 'layout': layout, 'stub': rel, 'layer': l['layer'],
+                                      'query': rq['steps'][idx]})
+                    mcur = m.get('path') is None or m.get('val') == cur_ids[si].get(m.get('path'))
+                    if (m.get('path') != rel or (rel is not None and l['layer'] != m.get('layer'))
+                            or served_current != mcur):
+                        ctx.tie_broken('correspondence:stubs',
+                                       short({'sid': sc['sid'], 'step': si, 'query': l['label'], 'layout': layout,
+                                              'real': [rel, l['layer'], served_current],
+                                              'model': [m.get('path'), m.get('layer'), mcur, m.get('memo')],
+                                              'stub_query': rq['steps'][idx],
+                                              'observer': sc['observer'], 'policy': sc['policy']}, 900))
+                    if not served_current:
+                        stale_loads.setdefault(si, []).append((rel, l['layer']))
+                    continue
                 cur = st['files'].get(rel)
                 served_current = l['code'] == cur or l['code'] == 'SAME-LINES'
-                ctx.count('layers', (sc['sid'], si, rel, l['label']), nontrivial=l['layer'] != 'parse',
+                ctx.count('layers', (sc['sid'], si, rel, l['label'], idx), nontrivial=l['layer'] != 'parse',
                           bucket='%s/%s/%s' % (sc['observer'], sc['policy'], l['layer']),
                           sample={'observer': sc['observer'], 'policy': sc['policy'], 'rel': rel, 'layer': l['layer'],
                                   'served_current': served_current})
@@ -533,9 +679,12 @@ def _run(ctx):
                 if a != b:
                     layer = (stale_loads.get(si) or [(None, None)])[0][1]
                     shape = classify(sc['policy'], None)
-                    ctx.fail('oracle', 'a Script answers for an earlier version of an imported file',
+                    ctx.fail('oracle', 'a later Script answers differently from a fresh process with an empty cache '
+                                       'on the same files (a definition of an earlier state is reported, or a '
+                                       'new one is missed)',
                              {'shape': shape, 'observer': sc['observer'], 'policy': sc['policy'],
-                              'scenario': {k: sc[k] for k in ('observer', 'policy', 'steps')}, 'step': si,
+                              'scenario': {'observer': sc['observer'], 'policy': sc['policy'],
+                                           'steps': sc['steps'][:si + 1]}, 'step': si,
                               'query': label, 'stale_layer': layer},
                              expected=b, observed=a, how='./check C09 --replay <this file>')
     finder_stream(ctx)
@@ -546,6 +695,10 @@ def _run(ctx):
         'directory mtime it is false (stream finder, known finding)',
         'time stamps: logical clock through os.utime on files, directories and pickle files; real granularity '
         'is not modelled',
+        'stub lookup: the python module kind of pkg.spk (package > module > namespace directory > absent) and the '
+        'os.path arithmetic of the candidates are computed by the harness from the files present; step 1 '
+        '(`<name>-stubs` directories) and typeshed (empty in this sandbox) are not modelled; when both '
+        '`pkg/spk.pyi` and `pkg/spk/__init__.pyi` exist the real choice follows os.listdir order (never generated)',
     ]
 
 
@@ -562,6 +715,33 @@ def witness_scenarios(seed):
          'steps': [[w('spare.py', 9, 9)] + base, [{'op': 'rename', 'src': 'spare.py', 'dst': 'mod.py',
                                                     'policy': 'keep', 'bytes_id': 9}]]},
     ]
+
+
+def layout_scenarios(seed):
+    """fresh stamps only (the property must hold): every stub layout of a sub-module is reached by a
+    mutation made AFTER the package was queried by the same process"""
+    n = {'v': 20}
+
+    def w(rel):
+        n['v'] += 1
+        return {'op': 'write', 'rel': rel, 'version': n['v'], 'policy': 'fresh', 'bytes_id': n['v']}
+
+    def d(rel):
+        return {'op': 'delete', 'rel': rel}
+    base = [w(r) for r in MODFILES]
+    # A: a stub next to a sub-PACKAGE: added, replaced by the __init__.pyi form, removed
+    a = [base + [w(SPK_PKG)], [w(SPK_SIB)], [d(SPK_SIB), w(SPK_INIT)], [d(SPK_INIT)]]
+    # B: module + stub, then the module is turned into a package (the stub stays next to it), then the
+    #    python package goes away (stub-only module next to a namespace directory)
+    b = [base + [w(SPK_MOD)], [w(SPK_SIB)], [d(SPK_MOD), w(SPK_PKG)], [d(SPK_PKG)]]
+    # C: nothing -> stub-only package -> python package with the stub moved next to it -> directory gone
+    c = [base, [w(SPK_INIT)], [w(SPK_PKG), d(SPK_INIT), w(SPK_SIB)], [{'op': 'rmdir', 'rel': 'pkg/spk'}]]
+    out = [
+        {'sid': 'l-pkgstub-%d' % seed, 'observer': 'same', 'policy': 'fresh', 'steps': a},
+        {'sid': 'l-modpkg-%d' % seed, 'observer': 'same', 'policy': 'fresh', 'steps': b},
+        {'sid': 'l-stubonly-%d' % seed, 'observer': ['same', 'warm'][seed % 2], 'policy': 'fresh', 'steps': c},
+    ]
+    return out
 
 
 # ----------------------------------------------------------------------- finder stream
